@@ -19,7 +19,7 @@ from ..core import AnalysisError, Cls, Func, Repo, dotted, norm, parents
 from ..cfg import CFG
 from ..guards import UseGuard, early_exit_guard_param, implies_attr
 from ..report import Check
-from ..util import call_name, calls_in
+from ..util import call_name, calls_in, impl_funcs
 
 DOC = 'pydoctor.model.Documentable'
 SCOPE_PREFIXES = ('pydoctor.templatewriter', 'pydoctor.sphinx')
@@ -409,7 +409,8 @@ def run(repo: Repo, chk: Check, thorough: bool = False) -> None:
     # ------------------------------------------------------------------ R12.4 private marker
     for q, want in MARKER_SITES.items():
         f = repo.func(q)
-        sites = _private_marker_sites(f)
+        # (the listing function with the private helpers it builds its entries in: `ul(_compactModulesItem(contents))`)
+        sites = [s_ for g_ in impl_funcs(repo, f, depth=2) for s_ in _private_marker_sites(g_)]
         chk.ob('R12.4', f'{q} :: private marker at every entry it builds', len(sites) >= want,
                f'{len(sites)} emission(s): ' + '; '.join(sites)[:200] if len(sites) >= want else
                f'{len(sites)} privacy-guarded emission(s) of the private marker, {want} kinds of listing entry are built here: a private object is '
@@ -730,6 +731,10 @@ def _private_marker_sites(f: Func) -> List[str]:
         if isinstance(n, ast.If) and is_priv_test(n.test):
             if any(isinstance(c, ast.Constant) and isinstance(c.value, str) and 'private' in c.value for st in n.body for c in ast.walk(st)):
                 out.append(f'if {norm(n.test)[:40]}')
+        # the same as a conditional value: `marker = ' private' if child.isPrivate else ''`
+        if isinstance(n, ast.IfExp) and is_priv_test(n.test) and \
+                any(isinstance(c, ast.Constant) and isinstance(c.value, str) and 'private' in c.value for c in ast.walk(n.body)):
+            out.append(f'... if {norm(n.test)[:40]} else ...')
         if isinstance(n, ast.Attribute) and n.attr == 'name' and isinstance(n.value, ast.Attribute) and n.value.attr == 'privacyClass':
             out.append(f'{norm(n)[:40]} emitted')
         # the same through the System method the property delegates to: system.privacyClass(o).name, also via a hoisted bound method
